@@ -44,11 +44,12 @@ Fixpoint chunk_loop (C seq : Z) (fs : list sample) (cur : list sample) (styp : b
     else chunk_loop C seq rest cur' styp nr this' total' dt'
   end.
 
-(** [chunkSegment]: [make([]chunk, 0, segMeta.newDur/uint32(chunkDur))] divides by
-    [uint32(chunkDur)] before anything else. *)
+(** [chunkSegment].  The capacity hint [nrChunks = int(segMeta.newDur)/chunkDur] is computed only
+    for [chunkDur > 0] (repair 1ce6842; before it, [segMeta.newDur/uint32(chunkDur)] panicked for a
+    chunk duration of 0 mod 2^32); it only sizes the allocation, so the result does not depend on
+    [newDur].  The function cannot fail on parsed samples ([GetFullSamples] errors are outside the model). *)
 Definition chunkSegment (fs : list sample) (hasStyp : bool) (newTime newNr newDur C : Z)
   : res (list chunk) :=
-  do _cap <- go_div "chunkSegment:segMeta.newDur/uint32(chunkDur)" newDur (u32 C) ;
   Ok (chunk_loop C newNr fs [] hasStyp 1 0 0 newTime).
 
 (** ** Pacing.  [chunkAvailTime] after each chunk and its millisecond value. *)
@@ -172,13 +173,3 @@ Fixpoint frags_contiguous (t : Z) (frags : list frag) : Prop :=
   | [] => True
   | f :: r => f_tfdt f = t /\ frags_contiguous (t + sum_durs (f_samples f)) r
   end.
-
-(** ** [writeChunkedSegment] from the chunk duration to the chunk list.  [guarded] says whether the
-    tree under test has the guard [if chunkDur <= 0 { return ... errBadChunkDur }] in front of
-    [chunkSegment] (proposed_fixes/C09-chunkdur-guard.diff; answered 400).  The pinned tree has
-    not ([guarded = false]); the harness determines the variant with one probe request and every
-    other case is compared with that variant. *)
-Definition chunksOf (guarded : bool) (fs : list sample) (hasStyp : bool) (newTime newNr newDur C : Z)
-  : res (list chunk) :=
-  if guarded && (C <=? 0) then Err "chunk duration not positive"
-  else chunkSegment fs hasStyp newTime newNr newDur C.
